@@ -22,7 +22,8 @@ RULE = ("schemas of depth <= 4 and width <= 6 with identifier keys whose option 
         "command line applied; distinct = distinct (schema, state, command line)")
 REQUIRED = ("fields_or_sections_built_with_a_key_of_their_own", "parser_from_a_configuration_with_state", "parsed_arguments_applied_to_a_fresh_configuration", "instance_methods_looked_up_by_path", "number_fields_declared_with_the_base_class", "membership_negatives", "schema_iterations_compared", "parsed_arguments_reused_with_another_ignore_list", "parser_from_schema_method", "sections_nested_in_a_section_of_the_same_name", "mode_helper_replaces_an_earlier_field", "rejected_command_lines_applied_again", "schemas_with_names_of_schema_methods_or_odd_underscores", "schema_grown_after_enumeration", "paths_checked", "dotted_assignments_checked", "parsers_compared", "overrides_compared", "argv:empty",
             "argv:bool-on", "argv:bool-off", "argv:bool-both-switches", "argv:value", "argv:repeated", "argv:invalid", "ignore:str", "ignore:list",
-            "state:mutated", "depth>=3")
+            "state:mutated", "depth>=3", "older_configuration_overrides_compared",
+            "older_configuration:options_for_fields_added_later_applied", "older_configuration:invalid_value_supplied")
 ASSUMPTIONS = ["enumeration is judged on root schemas / configurations; membership is demanded of stored fields only",
                "missing paths are never looked up on a schema (that would create them)",
                "the parser's actions are read through argparse's own action list"]
@@ -169,8 +170,41 @@ def generate(rng, ctx):
             holder["fields"].append({"kind": "field", "key": "runmode", "family": "appmode",
                                      "params": {"modes": ["dev", "prod"], "create_helpers": True, "default": "prod"}})
             schema["helper_collision"] = True
-    return {"schema": schema, "state_ops": state_ops, "cmdlines": cmdlines, "via_schema_method": rng.random() < 0.3,
+    case = {"schema": schema, "state_ops": state_ops, "cmdlines": cmdlines, "via_schema_method": rng.random() < 0.3,
             "parser_from_config": rng.random() < 0.5}
+    case["older"] = _gen_older(rng, env, cmdlines)
+    return case
+
+
+def _cmdline_text(rng, nd, want, env):
+    """A value of the wanted model label that can stand on a command line (text, no leading dash), or None."""
+    for _t in range(12):
+        v = gen.one_value(rng, nd, want, env)
+        if isinstance(v, (int, float)) and not isinstance(v, bool):
+            v = str(v)
+        if isinstance(v, str) and not v.startswith("-") and "\x00" not in v:
+            return v
+    return None
+
+
+def _gen_older(rng, env, cmdlines):
+    """Options for the fields the schema gains after a configuration was built from it (see _older_configuration): one
+    value per family of the added fields, which of them the user supplies, what is ignored, an optional invalid value
+    and an optional command line over the fields the configuration already knew."""
+    values, invalid = {"bool": rng.random() < 0.5}, {}
+    for fam in ("int", "float", "str"):
+        nd = {"kind": "field", "key": "grown", "family": fam, "params": {}}
+        values[fam] = _cmdline_text(rng, nd, "valid", env)
+        if fam != "str":
+            invalid[fam] = _cmdline_text(rng, nd, "invalid", env)
+    pick = [rng.random() < 0.7 for _ in range(3)]
+    if not any(pick):
+        pick[rng.randrange(3)] = True
+    known = [i for i, cl in enumerate(cmdlines) if cl["kind"] != "invalid" and cl["argv"]]
+    ignore = rng.choice([None, None, None, "str", "list"])
+    return {"values": values, "invalid_values": invalid, "invalid": rng.random() < 0.2, "pick": pick, "front": rng.random() < 0.5,
+            "with_cmdline": rng.choice(known) if known and rng.random() < 0.5 else None, "mutated": rng.random() < 0.5,
+            "ignore": ignore, "ignore_idx": rng.sample([0, 1, 2], rng.choice([1, 1, 2])), "ignore_known": rng.random() < 0.5}
 
 
 def abbreviate(case):
@@ -331,6 +365,19 @@ def run(case, ctx, res):
     grow = [p for p, nd in spec.walk(root) if nd["kind"] == "schema" and "[]" not in p and not _inside_ctype(root, p)]
     grow_rng = ctx.cache.setdefault("rng16g", __import__("random").Random(61))
     targets = grow_rng.sample(grow, min(len(grow), 2)) + [""]
+    # a configuration built (and, for half the cases, assigned to) BEFORE the schema grows: it is older than part of its schema
+    older = case.get("older")
+    old_cfg, grown = None, []
+    if older:
+        old_cfg = drv.cfg = cc.Config(schema, key_filename=drv.keyfile)
+        if older["mutated"] and case["state_ops"]:
+            for op in case["state_ops"]:
+                try:
+                    drv.step(op)
+                except Exception:
+                    pass
+            res.count("older_configuration:mutated")
+        drv.cfg = cfg
     for n, gpath in enumerate(targets):
         holder = schema[gpath] if gpath else schema
         gnode = spec.node_at(root, gpath) if gpath else root
@@ -338,6 +385,7 @@ def run(case, ctx, res):
         fam = grow_rng.choice(["int", "bool", "str", "float"])
         setattr(holder, key, {"int": cc.IntField, "bool": cc.BoolField, "str": cc.StringField, "float": cc.FloatField}[fam]())
         gnode["fields"].append({"kind": "field", "key": key, "family": fam, "params": {}})
+        grown.append(((gpath + "." if gpath else "") + key, fam))
         res.count("schema_grown_after_enumeration")
     cfg = drv.cfg = cc.Config(schema, key_filename=drv.keyfile)
     fields = check_names(":after-growth")
@@ -405,6 +453,10 @@ def run(case, ctx, res):
         wrongdest = sorted(o for o in set(want) & set(got) if want[o] != got[o])
         res.viol("M-parser", "option-set", "parser options differ: missing %r, unexpected %r, wrong destination %r" % (
             missing[:6], extra[:6], [(o, got[o], want[o]) for o in wrongdest[:4]]))
+        return
+    # ---- (3a) overrides applied to the configuration that is older than the fields the schema gained
+    if old_cfg is not None and not _older_configuration(cc, res, spec.resolve(older, drv.mapping), root, env, old_cfg, grown, parser, want,
+                                                         spec.resolve(case["cmdlines"], drv.mapping)):
         return
     # ---- (3) overrides
     applied = 0
@@ -528,6 +580,104 @@ def run(case, ctx, res):
                     return
     if len(listed) >= 4 and applied:
         res.nontrivial(case["schema"], case["state_ops"], case["cmdlines"])
+
+
+def _older_configuration(cc, res, older, root, env, old_cfg, grown, parser, want, cmdlines):
+    """The application built its configuration first, further fields were declared afterwards (`grown`: their paths and
+    families) and the parser was generated from the grown schema.  An option the user supplies for such a field - alone or
+    next to options for fields the configuration already knew - is an option like any other: supplied and not ignored, it
+    is applied in its normal form through normal validation; everything else stays as it was.  False after a violation."""
+    argv, supplied = [], {}
+    base = older.get("with_cmdline")
+    if base is not None and base < len(cmdlines):
+        argv = _filter_argv(list(cmdlines[base]["argv"]), want)
+        supplied = {p: v for p, v in cmdlines[base]["supplied"].items() if _opt(p) in want}
+    extra, late = [], []
+    for n, (path, fam) in enumerate(grown):
+        if not older["pick"][n % len(older["pick"])] or _opt(path) not in want:
+            continue
+        if fam == "bool":
+            on = bool(older["values"]["bool"]) ^ (n % 2 == 1)
+            extra.append(_opt(path) if on else "--no-" + _opt(path)[2:])
+            supplied[path] = on
+        else:
+            v = older["invalid_values"].get(fam) if older["invalid"] else None
+            if v is None:
+                v = older["values"].get(fam)
+            if v is None:
+                continue
+            extra += [_opt(path), v]
+            supplied[path] = v
+        late.append(path)
+    if not late:
+        return True
+    argv = extra + argv if older["front"] else argv + extra
+    try:
+        with contextlib.redirect_stderr(io.StringIO()):
+            args = parser.parse_args(argv)
+    except SystemExit:
+        res.viol("M-parser", "rejects-command-line", "the generated parser rejected %r, a command line over its own options" % (argv,))
+        return False
+    ign = None
+    if older["ignore"]:
+        names = [grown[i][0] for i in older["ignore_idx"] if i < len(grown) and grown[i][0] in supplied]
+        if older["ignore_known"]:
+            names += sorted(p for p in supplied if p not in late)[:1]
+        if names:
+            ign = names[0] if older["ignore"] == "str" else names
+    ign_list = [ign] if isinstance(ign, str) else (ign or [])
+    before = Snapshot(old_cfg)
+    expect_vals = history.clone(before.values)
+    expect_flags = dict(before.flags)
+    unknown = invalid = False
+    late_applied = 0
+    for p, v in supplied.items():
+        if p in ign_list:
+            continue
+        ok, norm = model.accepts(spec.node_at(root, p), v, env)
+        if ok is None:
+            unknown = True
+        elif ok is False:
+            invalid = True
+        else:
+            history.pset(expect_vals, p, norm)
+            expect_flags[p] = True
+            late_applied += p in late
+    try:
+        cc.cmdline_args_override(old_cfg, args, ignore=ign)
+        err = None
+    except Exception as exc:
+        err = exc
+    if unknown:
+        return True
+    if invalid:
+        res.count("older_configuration:invalid_value_supplied")
+        if err is None:
+            res.viol("M-override", "older-configuration:invalid-value-accepted", "command line %r (ignore %r) carries an invalid value but the "
+                     "override of a configuration built before the schema gained %r returned" % (argv, ign, late))
+            return False
+        return True
+    if err is not None:
+        res.viol("M-override", "older-configuration:raises", "override with %r (ignore %r) of a configuration built before the schema gained "
+                 "%r raised %s: %s" % (argv, ign, late, type(err).__name__, str(err)[:150]))
+        return False
+    after = Snapshot(old_cfg)
+    res.count("older_configuration_overrides_compared")
+    if late_applied:
+        res.count("older_configuration:options_for_fields_added_later_applied")
+    if ign_list:
+        res.count("older_configuration:ignore")
+    d = model.match(expect_vals, after.values)
+    if d:
+        res.viol("M-override", "older-configuration:values", "configuration built before the schema gained %r, command line %r (ignore %r): %s" % (
+            late, argv, ign, d))
+        return False
+    fd = [p for p in sorted(set(expect_flags) | set(after.flags)) if expect_flags.get(p) != after.flags.get(p)]
+    if fd:
+        res.viol("M-override", "older-configuration:flags", "configuration built before the schema gained %r, command line %r (ignore %r) changed "
+                 "the user-defined status of %r" % (late, argv, ign, fd[:5]))
+        return False
+    return True
 
 
 def _filter_argv(argv, want):
